@@ -35,6 +35,13 @@ Bounded-exhaustive exploration of gemato's hashing entry points:
                      table knows, in every case / separator / blank variant, the digest names,
                      aliases and OIDs OpenSSL documents, and special strings ('null', '',
                      misspelt '__size__', ...), alone and before / after a supported name
+  the same entry points under a SIMULATED BUILD
+                     in which hashlib LISTS an algorithm (algorithms_available) whose constructor raises
+                     ValueError (FIPS-style OpenSSL, OpenSSL 3 without the legacy provider): a seam on the
+                     module attribute gemato.hash.hashlib (no hook in /repo) forwards everything to the real
+                     hashlib, but hashlib.new(name) / hashlib.<name>() of a disabled ALGORITHM (whatever the
+                     spelling) raises ValueError or a subclass of it; every supported hashlib name is disabled in turn
+                     (thorough: also every pair)
 
 For the first three the file object is an io.BufferedReader over ScriptedRaw, an
 io.RawIOBase whose readinto() never crosses a scripted cut position, i.e. it returns
@@ -47,18 +54,26 @@ Oracle (three-valued):
                    kind) / accepted by hashlib.new() with a fixed digest length (hashlib
                    kind), and the algorithm is available: result[name] == one-shot digest of
                    the complete content, result['__size__'] == len(content)
-  MUST unsupported a name outside the table, or unavailable in this OpenSSL: the call must
+  MUST unsupported a name outside the table, or unavailable in this OpenSSL, or (hashlib kind) a
+                   name hashlib lists but cannot serve: the extendable-output functions (shake_*:
+                   digest_size == 0, hexdigest() needs a length) and, in a simulated build, the
+                   names whose constructor raises ValueError: the call must
                    raise gemato.exceptions.UnsupportedHash (CLI: exit 1 with an ERROR log
-                   line); a result, or any other exception type, is a violation
-  DONT_CARE        hashlib XOF names (shake_*): no parameterless standard digest exists and
-                   they are not Manifest names; the size pseudo-name '__size__' used as a
+                   line); a result (get_hash_by_name: an object), or any other exception type
+                   (TypeError, ValueError, ...), is a violation
+  DONT_CARE        the size pseudo-name '__size__' used as a
                    Manifest name; verify_path answering (False, diff) for an entry that carries
-                   an unsupported name
+                   an unsupported name; a simulated-build case in which gemato never asked the seam
+                   for the disabled algorithm and returned a result (the simulation did not reach it)
 
 A name is supported iff it is, character for character, one of the ten Manifest names of the
-independent table (Manifest kind) / a member of hashlib.algorithms_available that hashlib.new()
-accepts, or '__size__' (hashlib kind).  Nothing else is: not another spelling of a supported
-name, not a name only the crypto backend resolves.
+independent table whose algorithm can be constructed (Manifest kind) / a member of
+hashlib.algorithms_available for which hashlib.new(name) succeeds AND yields an object with a
+digest of fixed non-zero length (digest_size > 0, hexdigest() works without arguments), or
+'__size__' (hashlib kind) - computed at run time from hashlib (in a simulated build: from the
+simulated hashlib), never from gemato.  Nothing else is: not another spelling of a supported
+name, not a name only the crypto backend resolves, not an XOF, not a listed name whose
+constructor fails.
 
 The buffering thresholds of gemato.hash are tuning constants, not part of the property: the
 length windows always include the ones around 64 KiB, 128 KiB and 1 MiB; the current values of
@@ -96,8 +111,10 @@ RULE = ('every content length in 0..300, 65534..65538, 131070..131074, 1048574..
         '1, 2, n/2, n-2, n-1, every hint, no peek, no 1/2/3/7-byte schedules; real files as for every length); '
         'content = prefix of a position-dependent pattern; x every name set '
         '(each of the 10 Manifest names, 4 names outside the table, every hashlib.algorithms_available '
-        'name accepted by hashlib.new() without parameters, 2 unavailable hashlib names, the all-available '
-        'Manifest group, the all-fixed-length hashlib group, supported+unsupported mixes, the empty set) '
+        'name accepted by hashlib.new() without parameters - the extendable-output names (digest_size 0) among them, '
+        'which are UNSUPPORTED -, 2 unavailable hashlib names, the all-available '
+        'Manifest group, the all-fixed-length hashlib group, supported+unsupported mixes (one of them a supported '
+        'hashlib name + every XOF name), the empty set) '
         'x every size hint in {0, n, n-1, n+1, 1, 2**40} x every read schedule: for n <= 10 all 2^(n-1) '
         'compositions of n into short reads, for n > 10 the families whole / k-byte steps '
         '(1,2,3,7,4096,65535,65536,65537) / halving / one read cut short at position p for every p within '
@@ -137,7 +154,16 @@ RULE = ('every content length in 0..300, 65534..65538, 131070..131074, 1048574..
         'x position in {alone, before a supported name, after a supported name} (hash_file / hash_file_mapped with hint 0, get_file_metadata; '
         'cli_hash: alone and together with a supported name) and alone under hints {0, n} / '
         'through the other entry points; names that are empty or contain white space or NUL are not driven through the CLI (argument splitting). '
-        'A case = (entry point, n, name set, hint, schedule, peek | change, entry size | container, __size__ position); distinct by that tuple; non-trivial = '
+        'SIMULATED BUILDS (a listed algorithm whose constructor raises; seam on gemato.hash.hashlib): every length in {0, 100} '
+        '(thorough: + 1, 65537) x every build in {one supported hashlib name disabled, for each supported name in turn} (thorough: + every '
+        'unordered pair of supported names) x exception flavour in {ValueError, a subclass of ValueError} x: every hashlib-accepted name '
+        '(XOF names included) alone through get_hash_by_name, hash_bytes, hash_path, hash_file (hints {0, n}); every disabled name before / '
+        'after a supported partner through hash_file and hash_path; the all-fixed-length group with and without the disabled names; each of the ten '
+        'Manifest names alone through hash_file_mapped (hints {0, n}), hash_path_mapped, get_file_metadata, verify_path_names, cli_hash, '
+        'cli_stdin; every Manifest name whose algorithm is disabled before / after a supported partner through hash_file_mapped, '
+        'get_file_metadata, cli_hash; the all-available Manifest group.  "The same algorithm" = same digest_size and same digest of a '
+        'probe string under the real hashlib, so a disabled algorithm is disabled under every spelling the backend resolves. '
+        'A case = (entry point, n, name set, hint, schedule, peek | change, entry size | container, __size__ position | build, flavour); distinct by that tuple; non-trivial = '
         'n > 0 and the reference verdict is definite (digest or unsupported, not DONT_CARE)')
 ASSUMPTIONS = [
     'trusted base: CPython hashlib one-shot digests (cross-checked against coreutils md5sum/sha1sum/'
@@ -146,7 +172,16 @@ ASSUMPTIONS = [
     'raw objects whose readinto returns None (would-block), raises, or returns 0 before end of content are '
     'out of scope; BufferedReader uses the default buffer size',
     'names outside the Manifest table / unavailable algorithms must surface as UnsupportedHash '
-    '(library) or exit 1 + ERROR log (CLI); hashlib XOFs (shake_*) are DONT_CARE',
+    '(library) or exit 1 + ERROR log (CLI); hashlib XOFs (shake_*: digest_size 0, no parameterless hexdigest) are '
+    'UNSUPPORTED hashlib names: the statement quantifies over all hashlib names and a name gemato cannot produce '
+    'a digest for is either reported as unsupported or it is not reported at all (TypeError) - get_hash_by_name '
+    'returning an object for such a name is a violation as well',
+    'simulated builds: the only thing changed is what the name `hashlib` inside gemato.hash resolves to (an object that '
+    'forwards every attribute to the real hashlib, lists the same algorithms_available, and whose new() / named constructors / '
+    'file_digest() raise for a disabled algorithm); the reference digests come from the real hashlib.  The simulated constructor '
+    'failure is ValueError or a subclass, the types hashlib documents / _hashlib.UnsupportedDigestmodError has.  If gemato.hash '
+    'has no module attribute `hashlib` that is the hashlib module the family cannot be driven: that is a HARNESS-ERROR (not a '
+    'violation); a case in which the seam was never asked for a disabled algorithm and a result came back is DONT_CARE',
     'real files live on tmpfs where st_size is exact; file systems reporting st_size 0 are covered only '
     'through the scripted hint 0',
     'lengths between the windows (301..65533 etc.) and beyond 2 MiB+1 (4 MiB+1 when the power-of-two fallback windows '
@@ -156,7 +191,7 @@ ASSUMPTIONS = [
     'while both constants have their default values and are downgraded to notes otherwise; which read sizes the raw stream '
     'was asked for (8192-byte readall vs HASH_BUFFER_SIZE read1) is recorded as an observation and never enforced',
     'supported names are exactly: the ten Manifest names of gverif/refmanifest.HASHES whose algorithm this OpenSSL provides '
-    '(Manifest kind); the members of hashlib.algorithms_available that hashlib.new() accepts, and the size pseudo-name __size__ '
+    '(Manifest kind); the members of hashlib.algorithms_available that hashlib.new() accepts and that have digest_size > 0, and the size pseudo-name __size__ '
     '(hashlib kind).  Every other string must raise UnsupportedHash (CLI: exit 1 + ERROR log) and never yield a digest; the '
     'spelling alphabet is judged by membership in those sets computed at run time, so a Python whose algorithms_available also '
     'lists e.g. upper-case names turns those spellings into digest cases.  Non-string names are out of scope.  __size__ used as '
@@ -253,7 +288,8 @@ MANIFEST_NAMES = tuple(rm.HASHES)
 UNKNOWN_MANIFEST = ('FOO', 'sha256', 'SHA224', 'SHA3_384')
 COREUTILS = (('MD5', 'md5sum'), ('SHA1', 'sha1sum'), ('SHA256', 'sha256sum'),
              ('SHA512', 'sha512sum'), ('BLAKE2B', 'b2sum'))
-XOF_REASON = 'hashlib XOF name: no parameterless standard digest, not a Manifest name'
+BUILD_REASON = ('simulated build: gemato returned a result without ever asking the hashlib seam for the disabled algorithm '
+                '(the simulation did not reach the code that serves this call)')
 SIZE_REASON = "the size pseudo-name '__size__' used as a Manifest name: the statement does not say whether it is a hash name"
 DIFF_REASON = ('verify_path answered (False, diff) for an entry with an unsupported hash name: reported as a mismatch, '
                'the statement does not fix the channel')
@@ -293,7 +329,8 @@ _HL = None
 
 
 def hashlib_accepted():
-    """-> (names accepted by hashlib.new() without parameters, those with a fixed digest length)"""
+    """-> (names accepted by hashlib.new() without parameters, those with a digest of fixed non-zero length).
+    The second tuple is the set of SUPPORTED hashlib names; the difference are the extendable-output functions."""
     global _HL
     if _HL is None:
         acc, fixed = [], []
@@ -304,12 +341,158 @@ def hashlib_accepted():
                 continue
             acc.append(n)
             try:
-                h.hexdigest()
-                fixed.append(n)
+                if getattr(h, 'digest_size', 0) > 0 and isinstance(h.hexdigest(), str):
+                    fixed.append(n)
             except TypeError:
                 pass
         _HL = (tuple(acc), tuple(fixed))
     return _HL
+
+
+def xof_names():
+    """hashlib lists and constructs them, but there is no digest without a length argument."""
+    acc, fixed = hashlib_accepted()
+    return tuple(n for n in acc if n not in fixed)
+
+
+# ---------------------------------------------------------------- simulated builds: a listed algorithm cannot be constructed
+
+PROBE = b'gverif C17: which function is this?'
+FLAVOURS = ('ValueError', 'subclass')
+BUILD_PAIRS_TIER = 'thorough'
+
+
+class SimulatedDigestmodError(ValueError):
+    """Stands for _hashlib.UnsupportedDigestmodError, which is a ValueError too."""
+
+
+_PROBES = {}
+
+
+def probe(kind, name):
+    """What function the name computes: (digest_size, digest of PROBE) under the REAL hashlib / the independent
+    Manifest table; None when there is no parameterless fixed-length digest (unknown name, XOF, non-string)."""
+    key = (kind, name)
+    if key not in _PROBES:
+        r = None
+        try:
+            if kind == 'manifest':
+                h = rm.HASHES[name]() if name in rm.HASHES else None
+            else:
+                h = hashlib.new(name) if isinstance(name, str) else None
+            if h is not None and getattr(h, 'digest_size', 0) > 0:
+                h.update(PROBE)
+                r = (h.digest_size, h.digest())
+        except (ValueError, TypeError, KeyError):
+            r = None
+        _PROBES[key] = r
+    return _PROBES[key]
+
+
+def disabled_probes(disabled):
+    return {probe('hashlib', d) for d in disabled} - {None}
+
+
+def is_disabled(kind, name, disabled):
+    p = probe(kind, name)
+    return p is not None and p in disabled_probes(disabled)
+
+
+class SimulatedHashlib:
+    """What `hashlib` looks like in a build whose crypto backend refuses some of the algorithms it lists.
+
+    Every attribute is the real one (algorithms_available included: the disabled names ARE listed); new(),
+    the named constructors and file_digest() construct the real object first (so unknown names fail as they
+    always do) and then raise when that object computes a disabled algorithm, whatever spelling was used."""
+
+    def __init__(self, disabled, flavour):
+        self.__dict__['_disabled'] = tuple(disabled)
+        self.__dict__['_exc'] = ValueError if flavour == 'ValueError' else SimulatedDigestmodError
+        self.__dict__['fired'] = 0          # constructions of a disabled algorithm that were refused
+        self.__dict__['asked'] = 0          # attribute look-ups
+
+    def _refuse(self, name):
+        if isinstance(name, str) and is_disabled('hashlib', name, self._disabled):
+            self.__dict__['fired'] += 1
+            raise self._exc(f'[digital envelope routines] unsupported (simulated build: {name} is disabled)')
+
+    def new(self, name, *a, **kw):
+        self.__dict__['asked'] += 1
+        h = hashlib.new(name, *a, **kw)
+        self._refuse(name)
+        return h
+
+    def __getattr__(self, attr):
+        self.__dict__['asked'] += 1
+        v = getattr(hashlib, attr)
+        if attr == 'file_digest':
+            def file_digest(fileobj, digest, *a, **kw):
+                if isinstance(digest, str):
+                    hashlib.new(digest)
+                    self._refuse(digest)
+                elif callable(digest):
+                    digest()            # one of our own wrappers raises here
+                return v(fileobj, digest, *a, **kw)
+            return file_digest
+        if callable(v) and (attr in hashlib.algorithms_available or attr in hashlib.algorithms_guaranteed):
+            def constructor(*a, **kw):
+                h = v(*a, **kw)
+                self._refuse(attr)
+                return h
+            return constructor
+        return v
+
+    def __setattr__(self, attr, value):
+        raise AttributeError('the simulated hashlib is read-only')
+
+
+def seam_available():
+    return ghash.__dict__.get('hashlib') is hashlib
+
+
+class simulated_build:
+    """with simulated_build(disabled, flavour) as sim: gemato.hash sees the simulated hashlib.  sim is None (and
+    nothing is changed) when gemato.hash has no module attribute `hashlib` that is the hashlib module."""
+
+    def __init__(self, disabled, flavour):
+        self.disabled, self.flavour = disabled, flavour
+        self.sim = None
+
+    def __enter__(self):
+        if seam_available():
+            self.sim = SimulatedHashlib(self.disabled, self.flavour)
+            ghash.hashlib = self.sim
+        return self.sim
+
+    def __exit__(self, *a):
+        if self.sim is not None:
+            ghash.hashlib = hashlib
+        return False
+
+
+def builds(tier):
+    """-> list of (disabled names, flavour): every supported hashlib name in turn (thorough: every pair too)."""
+    _acc, fixed = hashlib_accepted()
+    sets = [(d,) for d in fixed]
+    if tier == BUILD_PAIRS_TIER:
+        sets += list(itertools.combinations(fixed, 2))
+    return [(d, fl) for d in sets for fl in FLAVOURS]
+
+
+def build_lengths(tier):
+    return [0, 100] if tier == 'quick' else [0, 1, 100, 65537]
+
+
+def build_partner(kind, disabled):
+    """A supported name of the kind whose algorithm is not disabled."""
+    if kind == 'hashlib':
+        cands = ('sha1', 'sha256') + hashlib_accepted()[1]
+    else:
+        cands = ('SHA1', 'SHA256') + tuple(n for n in MANIFEST_NAMES if rm.available(n))
+    for c in cands:
+        if probe(kind, c) is not None and not is_disabled(kind, c, disabled):
+            return c
+    return None
 
 
 def namesets():
@@ -322,6 +505,8 @@ def namesets():
     out += [('hashlib', (n,), False) for n in acc]
     out += [('hashlib', (n,), False) for n in ('nosuchhash', 'whirlpool') if n not in acc]
     out += [('hashlib', fixed, True), ('hashlib', ('md5', 'nosuchhash'), True)]
+    if xof_names():
+        out.append(('hashlib', ('sha1',) + xof_names(), True))
     return out
 
 
@@ -333,12 +518,14 @@ def reduced_namesets():
 _EXP = {}
 
 
-def expectation(kind, names):
-    key = (kind, names)
+def expectation(kind, names, disabled=()):
+    """disabled = the hashlib names whose algorithm cannot be constructed in the (simulated) build."""
+    key = (kind, names, disabled)
     r = _EXP.get(key)
     if r is None:
         if kind == 'manifest':
-            bad = [n for n in names if n != '__size__' and (n not in rm.HASHES or not rm.available(n))]
+            bad = [n for n in names if n != '__size__' and (n not in rm.HASHES or not rm.available(n)
+                                                           or (disabled and is_disabled(kind, n, disabled)))]
             if bad:
                 r = ('unsupported', bad)
             elif '__size__' in names:
@@ -346,14 +533,10 @@ def expectation(kind, names):
             else:
                 r = ('digest', None)
         else:
-            acc, fixed = hashlib_accepted()
-            bad = [n for n in names if n not in acc]
-            if bad:
-                r = ('unsupported', bad)
-            elif any(n not in fixed for n in names):
-                r = ('dontcare', XOF_REASON)
-            else:
-                r = ('digest', None)
+            # supported = listed, constructible, and with a digest of fixed non-zero length (so not an XOF)
+            _acc, fixed = hashlib_accepted()
+            bad = [n for n in names if n not in fixed or (disabled and is_disabled(kind, n, disabled))]
+            r = ('unsupported', bad) if bad else ('digest', None)
         _EXP[key] = r
     return r
 
@@ -784,8 +967,11 @@ def exec_real(entry, path, names, repeat=1, data=None):
     if entry == 'get_hash_by_name':
         def one():
             h = ghash.get_hash_by_name(names[0])
-            h.update(data)
-            return {names[0]: h.hexdigest()}
+            try:
+                h.update(data)
+                return {names[0]: h.hexdigest()}
+            except TypeError as e:      # an object came back, but it has no digest without further arguments
+                return {'<object without a parameterless digest>': f'{type(h).__name__}: {e}'[:80]}
         return gem.call(one)
     if entry == 'verify_path_names':
         return gem.call(_verify_names, path, names, data)
@@ -803,6 +989,17 @@ def exec_real(entry, path, names, repeat=1, data=None):
                     names[0]: ghash.hash_bytes(data, names[0])}
         return gem.call(go)
     raise ValueError(entry)
+
+
+def under_build(build, fn):
+    """Run fn() in the simulated build (None = the real one) -> (fn(), what the seam saw | None)"""
+    if build is None:
+        return fn(), None
+    with simulated_build(build[0], build[1]) as sim:
+        r = fn()
+    if ghash.__dict__.get('hashlib') is not hashlib and sim is not None:
+        raise RuntimeError('the hashlib seam on gemato.hash was not taken out again')
+    return r, ({'available': False} if sim is None else {'available': True, 'fired': sim.fired, 'asked': sim.asked})
 
 
 # ---------------------------------------------------------------- judging
@@ -844,12 +1041,34 @@ def _check_mapping(entry, kind, names, seed, L, v, out, want_size=True):
 
 
 WHY_UNSUPPORTED = {'manifest': 'not one of the ten Manifest names, or its algorithm is unavailable',
-                   'hashlib': 'not a hashlib.algorithms_available name that hashlib.new() accepts'}
+                   'hashlib': 'not a hashlib.algorithms_available name that hashlib.new() accepts and that has a digest '
+                              'of fixed non-zero length'}
+WHY_BUILD = '; in this simulated build the constructor of {} raises'
+BUILD_TAG = 'listed_constructor_raises'
+SEAM_REASON = 'simulated build: gemato.hash has no module attribute `hashlib` to put the seam on (reported as a harness error)'
 
 
-def judge(entry, kind, names, seed, L, o, repeat=1, want_size=True):
+def returned_result(entry, o):
+    return cli_exit(o) == 0 if entry.startswith('cli') else o['kind'] == 'ret'
+
+
+def judge_build(entry, kind, names, seed, L, o, build, seam, repeat=1):
+    """A case run in a simulated build -> (verdict label, outcome label, [(sig, message), ...], dontcare reason | None)"""
+    disabled = tuple(build[0])
+    if not seam['available']:
+        return 'dontcare', gem.brief(o), [], SEAM_REASON
+    what, got, viols = judge(entry, kind, names, seed, L, o, repeat, disabled=disabled)
+    only_the_build = expectation(kind, names, disabled)[0] == 'unsupported' and expectation(kind, names)[0] == 'digest'
+    if only_the_build and not seam['fired'] and returned_result(entry, o):
+        return 'dontcare', got, [], BUILD_REASON
+    how = f'simulated build: {"/".join(disabled)} listed but the constructor raises {build[1]}'
+    viols = [(dict(sig, build=BUILD_TAG), f'{msg} [{how}; refused constructions: {seam["fired"]}]') for sig, msg in viols]
+    return what, got, viols, (DIFF_REASON if what == 'dontcare' else None)
+
+
+def judge(entry, kind, names, seed, L, o, repeat=1, want_size=True, disabled=()):
     """-> (verdict label, outcome label, [(sig, message), ...])"""
-    what, info = expectation(kind, names)
+    what, info = expectation(kind, names, disabled)
     got = gem.brief(o) if o['kind'] != 'ret' or entry.startswith('cli') else 'ret'
     if what == 'dontcare':
         return what, got, []
@@ -860,7 +1079,8 @@ def judge(entry, kind, names, seed, L, o, repeat=1, want_size=True):
     if entry == 'verify_path_names':
         return _judge_verify_names(entry, what, info, names, o, got)
     if what == 'unsupported':
-        desc = f'{entry}: name(s) {info!r} not supported ({WHY_UNSUPPORTED[kind]})'
+        desc = (f'{entry}: name(s) {info!r} not supported ({WHY_UNSUPPORTED[kind]}'
+                f'{WHY_BUILD.format("/".join(disabled)) if disabled else ""})')
         if is_cli:
             if o['kind'] == 'exc' and o.get('class') != 'exit':
                 out.append((_exc_sig('unsupported_name_wrong_exception', entry, o),
@@ -1239,8 +1459,10 @@ def run_iter_case(case, path):
 
 # ---------------------------------------------------------------- one case
 
-def make_case(entry, seed, L, kind, names, hint=None, sched=None, peek=0, repeat=1):
+def make_case(entry, seed, L, kind, names, hint=None, sched=None, peek=0, repeat=1, build=None):
     c = {'entry': entry, 'seed': seed, 'L': L, 'kind': kind, 'names': list(names)}
+    if build is not None:
+        c['build'] = {'disabled': list(build[0]), 'flavour': build[1]}
     if entry in SCRIPTED:
         c['hint'] = hint
         c['sched'] = [sched[0], sched[1], list(sched[2])]
@@ -1282,17 +1504,23 @@ class Ctx:
         self.seen_sigs = set()
         self.sampled_changing = False
         self.sampled_iter = False
+        self.sampled_build = False
+        self.xof = frozenset(xof_names())
 
-    def record(self, entry, L, kind, names, what, got, viols, case_fn, desc):
+    def record(self, entry, L, kind, names, what, got, viols, case_fn, desc, reason=None):
         st = self.stats
         st.evaluations += 1
         st.transitions += 1
         if what == 'dontcare':
             e = expectation(kind, names)
-            st.dontcare[e[1] if e[0] == 'dontcare' else DIFF_REASON] += 1
+            st.dontcare[reason or (e[1] if e[0] == 'dontcare' else DIFF_REASON)] += 1
         else:
             st.compared += 1
         st.case(desc, nontrivial=(L > 0 and what != 'dontcare'))
+        if what == 'unsupported' and kind == 'hashlib' and not self.xof.isdisjoint(names):
+            st.counters['xof_cases_' + entry] += 1
+            if not viols:
+                st.counters['xof_ok_unsupported'] += 1
         st.outcomes[f'{entry}/{what}/{got if what != "digest" or viols or got != "ret" else "ok"}'] += 1
         if viols:
             case = None
@@ -1322,6 +1550,42 @@ class Ctx:
                 if json.dumps(jsonable(r['sig']), sort_keys=True) == sigkey:
                     return c2, r['message']
         return None
+
+    def built(self, entry, L, data, path, kind, names, build, hint=None, repeat=1):
+        """One case in a simulated build; scripted entry points get the content in one read."""
+        if entry in SCRIPTED:
+            (o, _raw), seam = under_build(build, lambda: exec_scripted(entry, data, names, hint, 0, (), 0))
+        else:
+            o, seam = under_build(build, lambda: exec_real(entry, path, names, repeat, data))
+        what, got, viols, reason = judge_build(entry, kind, names, self.seed, L, o, build, seam, repeat)
+        c = self.stats.counters
+        c['build_cases'] += 1
+        c['build_cases_' + entry] += 1
+        if not seam['available']:
+            c['build_seam_unavailable'] += 1
+        else:
+            c['build_refused_constructions'] += seam['fired']
+            c['build_cases_seam_consulted'] += bool(seam['asked'])
+            base = expectation(kind, names)[0]
+            if what == 'unsupported' and base == 'digest':
+                c['build_cases_unsupported_only_because_of_the_build'] += 1
+                c['build_unsupported_' + entry] += 1
+                if not viols:
+                    c['build_ok_unsupported'] += 1
+            elif what == 'digest':
+                c['build_cases_digest_due'] += 1
+                if not viols:
+                    c['build_ok_digest'] += 1
+            if reason == BUILD_REASON:
+                c['build_cases_not_reached_by_the_simulation'] += 1
+        self.record(entry, L, kind, names, what, got, viols,
+                    lambda: make_case(entry, self.seed, L, kind, names, hint, WHOLE, 0, repeat, build),
+                    (entry, L, kind, names, hint, repeat, build), reason)
+        st = self.stats
+        if not self.sampled_build and what == 'unsupported' and L and entry == 'hash_bytes':
+            self.sampled_build = True
+            st.sample({'entry': entry, 'length': L, 'names': list(names), 'simulated_build_disables': list(build[0]),
+                       'constructor_raises': build[1], 'verdict': what, 'got': got, 'violations': len(viols)})
 
     def scripted(self, entry, L, data, kind, names, hint, sched, peek=0):
         label, step, cuts = sched
@@ -1412,6 +1676,8 @@ class Ctx:
 
 def describe(case):
     s = f'{case["entry"]} n={case["L"]} names={case["names"]}'
+    if 'build' in case:
+        s += f' simulated_build_disables={case["build"]["disabled"]} constructor_raises={case["build"]["flavour"]}'
     if 'change' in case:
         s += f' change={case["change"]}'
         if 'esize' in case:
@@ -1448,16 +1714,21 @@ def replay(case, scratch):
                 f.write(data)
         _o, _what, _got, viols = run_iter_case(case, path)
         return [{'sig': sig, 'case': case, 'message': f'{msg} [case {describe(case)}]'} for sig, msg in viols]
+    build = (tuple(case['build']['disabled']), case['build']['flavour']) if case.get('build') else None
     if entry in SCRIPTED:
         label, step, cuts = case['sched']
-        o, _raw = exec_scripted(entry, data, names, case['hint'], step, tuple(cuts), case.get('peek', 0))
+        (o, _raw), seam = under_build(build, lambda: exec_scripted(entry, data, names, case['hint'], step, tuple(cuts),
+                                                                  case.get('peek', 0)))
     else:
         root = fresh_root(scratch)
         path = os.path.join(root, file_name(seed))
         with open(path, 'wb') as f:
             f.write(data)
-        o = exec_real(entry, path, names, repeat, data)
-    _what, _got, viols = judge(entry, kind, names, seed, L, o, repeat)
+        o, seam = under_build(build, lambda: exec_real(entry, path, names, repeat, data))
+    if build is not None:
+        _what, _got, viols, _reason = judge_build(entry, kind, names, seed, L, o, build, seam, repeat)
+    else:
+        _what, _got, viols = judge(entry, kind, names, seed, L, o, repeat)
     return [{'sig': sig, 'case': case, 'message': f'{msg} [case {describe(case)}]'} for sig, msg in viols]
 
 
@@ -1722,8 +1993,63 @@ def run_spelling(spec, tier, seed, ctx):
     os.unlink(path)
 
 
+def build_chunks(tier):
+    return 4 if tier == 'quick' else 16
+
+
+BUILD_HASHLIB_ENTRIES = ('get_hash_by_name', 'hash_bytes', 'hash_path', 'hash_file')
+BUILD_MANIFEST_ENTRIES = ('hash_file_mapped', 'hash_path_mapped', 'get_file_metadata', 'verify_path_names', 'cli_hash',
+                          'cli_stdin')
+
+
+def build_cases(build, L):
+    """-> list of (entry, kind, names, hint, repeat) run in one simulated build at one length."""
+    disabled = build[0]
+    acc, fixed = hashlib_accepted()
+    hints = sorted({0, L})
+    out = []
+    for x in acc:
+        out += [(e, 'hashlib', (x,), None, 1) for e in ('get_hash_by_name', 'hash_bytes', 'hash_path')]
+        out += [('hash_file', 'hashlib', (x,), h, 1) for h in hints]
+    partner = build_partner('hashlib', disabled)
+    for d in disabled:
+        for names in ((d, partner), (partner, d)) if partner else ():
+            out += [('hash_file', 'hashlib', names, 0, 1), ('hash_path', 'hashlib', names, None, 1)]
+    rest = tuple(n for n in fixed if not is_disabled('hashlib', n, disabled))
+    for names in (fixed, rest):
+        out += [('hash_file', 'hashlib', names, 0, 1), ('hash_path', 'hashlib', names, None, 1)]
+    for m in MANIFEST_NAMES:
+        out += [('hash_file_mapped', 'manifest', (m,), h, 1) for h in hints]
+        out += [(e, 'manifest', (m,), 0 if e == 'cli_stdin' else None, 1) for e in BUILD_MANIFEST_ENTRIES[1:]]
+    mpartner = build_partner('manifest', disabled)
+    for m in MANIFEST_NAMES:
+        if mpartner and rm.available(m) and is_disabled('manifest', m, disabled):
+            for names in ((m, mpartner), (mpartner, m)):
+                out += [('hash_file_mapped', 'manifest', names, 0, 1), ('get_file_metadata', 'manifest', names, None, 1),
+                        ('cli_hash', 'manifest', names, None, 1)]
+    avail = tuple(sorted(n for n in MANIFEST_NAMES if rm.available(n)))
+    out += [('hash_file_mapped', 'manifest', avail, 0, 1), ('get_file_metadata', 'manifest', avail, None, 1),
+            ('cli_hash', 'manifest', avail, None, 2)]
+    return out
+
+
+def run_build(spec, tier, seed, ctx):
+    """Some simulated builds at one length through every entry point."""
+    _t, L, chunk = spec
+    data = pattern(seed, L)
+    root = fresh_root(ctx.scratch)
+    path = os.path.join(root, file_name(seed))
+    with open(path, 'wb') as f:
+        f.write(data)
+    for build in rot(builds(tier)[chunk::build_chunks(tier)], seed):
+        ctx.stats.counters['builds_run'] += 1
+        for entry, kind, names, hint, repeat in build_cases(build, L):
+            ctx.built(entry, L, data, path, kind, names, build, hint, repeat)
+    os.unlink(path)
+
+
 RUNNERS = {'C': run_changing, 'S': run_small, 'L': run_large, 'K': run_heavy, 'R': run_real, 'RL': run_real_large,
-           'I': run_iter, 'N': run_spelling}
+           'I': run_iter, 'N': run_spelling, 'B': run_build}
 
 
 def _cost(spec):
@@ -1740,6 +2066,8 @@ def _cost(spec):
         return sum(400000 + 12 * L for L in spec[1]) * (1 if spec[2] == 'mapped_gen' else 2)
     if t == 'N':
         return 400000 + 400 * spec[2]
+    if t == 'B':
+        return 300000 + 300 * spec[1]
     if t == 'S':
         return sum((1 << max(L - 1, 0)) * 40 if L <= COMP_MAX else 2500 + 25 * L for L in spec[1]) * 60
     return sum(3000 + L for L in spec[1]) * 60
@@ -1778,6 +2106,7 @@ def shards(tier, seed):
         out += [('I', (L,), cont) for L in il if L > SMALL_MAX]
     out += [('N', kind, L, i) for kind in ('hashlib', 'manifest') for L in spelling_lengths(tier)
             for i in range(SPELLING_CHUNKS)]
+    out += [('B', L, i) for L in build_lengths(tier) for i in range(build_chunks(tier))]
     out.sort(key=_cost, reverse=True)
     return out
 
@@ -1788,6 +2117,8 @@ def setup(tier, seed, base):
     pattern(seed, 1 << 21)           # built once in the parent, inherited by the forked workers
     spellings()
     hashlib_accepted()
+    for n in hashlib_accepted()[0] + MANIFEST_NAMES:
+        probe('manifest' if n in MANIFEST_NAMES else 'hashlib', n)
     _REGISTRY = os.path.join(base, 'c17-reported-signatures')
     os.makedirs(_REGISTRY, exist_ok=True)
 
@@ -1909,6 +2240,52 @@ def finish(total, tier):
         classes = {k.split('/')[1] for k in total.outcomes if k.split('/')[0] == e}
         if not {'digest', 'unsupported'} <= classes:
             errs.append(f'vacuity (spellings): {e} saw verdict classes {sorted(classes)} only')
+    # extendable-output names: listed and constructible, yet unsupported
+    xof = xof_names()
+    if not xof:
+        errs.append('vacuity (XOF): hashlib lists no constructible name with digest_size 0 (shake_* are guaranteed since 3.6)')
+    for e in ('get_hash_by_name', 'hash_bytes', 'hash_path', 'hash_file', 'hash_file_iter', 'hash_path_iter'):
+        if xof and not c['xof_cases_' + e]:
+            errs.append(f'vacuity (XOF): no extendable-output name went through {e} with the verdict unsupported')
+    if xof and not c['xof_ok_unsupported'] and not c['violations_raw'] and not total.violations:
+        errs.append('vacuity (XOF): no extendable-output name was judged correctly rejected')
+
+    # simulated builds
+    n_builds = len(builds(tier)) * len(build_lengths(tier))
+    want_cases = sum(len(build_cases(b, L)) for b in builds(tier) for L in build_lengths(tier))
+    if not seam_available() or c['build_seam_unavailable']:
+        errs.append('simulated builds: gemato.hash has no module attribute `hashlib` that is the hashlib module; the family '
+                    f'"listed algorithm whose constructor raises" could not be driven ({c["build_seam_unavailable"]} cases skipped)')
+    else:
+        if (c['builds_run'] != n_builds and complete) or not n_builds:
+            errs.append(f'vacuity (simulated builds): {c["builds_run"]} (build, length) pairs ran, expected {n_builds}')
+        if (c['build_cases'] != want_cases and complete) or not want_cases:
+            errs.append(f'vacuity (simulated builds): {c["build_cases"]} cases ran, expected {want_cases}')
+        if not c['build_refused_constructions']:
+            errs.append('vacuity (simulated builds): the seam never refused a construction - gemato does not construct its hash '
+                        'objects through gemato.hash.hashlib, the simulated build was never in effect')
+        if not c['build_cases_seam_consulted']:
+            errs.append('vacuity (simulated builds): gemato never looked anything up on the simulated hashlib')
+        for e in BUILD_HASHLIB_ENTRIES + BUILD_MANIFEST_ENTRIES:
+            if not c['build_cases_' + e]:
+                errs.append(f'vacuity (simulated builds): entry point {e} never ran in a simulated build')
+            elif not c['build_unsupported_' + e]:
+                errs.append(f'vacuity (simulated builds): no name disabled by the build went through {e}')
+        if not c['build_cases_digest_due']:
+            errs.append('vacuity (simulated builds): no case in which a digest is due although another algorithm is disabled')
+        quiet = not c['violations_raw'] and not total.violations
+        if not c['build_ok_unsupported'] and quiet:
+            errs.append('vacuity (simulated builds): no disabled name was judged correctly rejected')
+        if not c['build_ok_digest'] and quiet:
+            errs.append('vacuity (simulated builds): no digest of a name that is not disabled was judged correct')
+        if c['build_cases_not_reached_by_the_simulation'] * 2 > c['build_cases_unsupported_only_because_of_the_build']:
+            errs.append(f'vacuity (simulated builds): {c["build_cases_not_reached_by_the_simulation"]} of '
+                        f'{c["build_cases_unsupported_only_because_of_the_build"]} cases with a disabled name were not reached by the '
+                        'simulation (result returned, seam never asked for the algorithm)')
+    mdis = [m for m in MANIFEST_NAMES if rm.available(m) and any(is_disabled('manifest', m, b[0]) for b in builds(tier))]
+    if len(mdis) != sum(1 for m in MANIFEST_NAMES if rm.available(m)):
+        errs.append(f'vacuity (simulated builds): only {mdis} of the available Manifest algorithms are disabled by some build')
+
     kinds = {k.split('/')[1] for k in total.outcomes}
     for need in ('digest', 'unsupported'):
         if need not in kinds:
@@ -1951,6 +2328,12 @@ def extra_evidence(total, tier):
         'names_outside_table': list(UNKNOWN_MANIFEST),
         'hashlib_names_accepted': list(acc),
         'hashlib_names_variable_length': [n for n in acc if n not in fixed],
+        'hashlib_names_supported': list(fixed),
+        'simulated_builds': len(builds(tier)),
+        'simulated_build_flavours': list(FLAVOURS),
+        'simulated_build_lengths': build_lengths(tier),
+        'simulated_build_cases_expected': sum(len(build_cases(b, L)) for b in builds(tier) for L in build_lengths(tier)),
+        'simulated_build_seam': 'module attribute gemato.hash.hashlib' if seam_available() else 'UNAVAILABLE',
         'compositions_total': sum(total.counters[f'compositions_n{L}'] for L in range(COMP_MAX + 1)),
         'trusted_base': ['CPython hashlib', 'coreutils md5sum/sha1sum/sha256sum/sha512sum/b2sum',
                          'gverif/refmanifest.HASHES', 'io.BufferedReader'],
